@@ -96,7 +96,9 @@ func (r *Reconnector) Schedule(addr string) {
 func (r *Reconnector) attemptReconnect(addr string) {
 	r.mu.Lock()
 	state, exists := r.states[addr]
-	if !exists || r.closed {
+	if !exists || r.closed || r.paused {
+		// A timer that fired just before Pause() stopped it ends up here: no attempt
+		// starts while paused. The state is kept for Resume() + Schedule().
 		r.mu.Unlock()
 		return
 	}
@@ -119,6 +121,12 @@ func (r *Reconnector) attemptReconnect(addr string) {
 	defer r.mu.Unlock()
 
 	if r.closed {
+		return
+	}
+
+	if r.paused && err != nil {
+		// Paused while this attempt was in flight: do not re-arm the timer. The state is
+		// kept; the owner calls Schedule() again after Resume().
 		return
 	}
 
